@@ -12,6 +12,7 @@ expression into a canonical layout string.
   integer arithmetic             ->  constants folded, operands sorted for +
 Anything else is kept as normalised source text."""
 import ast
+import re
 from .model import AnalysisError
 
 
@@ -116,6 +117,36 @@ class Layout:
                             bits = _FMT[c]
                             out.append(f"u{bits}{'' if bits == 8 else end}({self.intexpr(a)})")
                         return out
+                    # a counted item fed by a starred sequence: pack(f"<B{len(xs)}I", n, *xs) = u8(n) | one u32 per element of xs
+                    toks = re.findall(r"(\{[^{}]*\}|\d+)?([A-Za-z])", body)
+                    if end is not None and toks and "".join((c or "") + k for c, k in toks) == body and all(k in _FMT for _, k in toks):
+                        out, args, okp = [], list(e.args[1:]), True
+                        for cnt, k in toks:
+                            bits = _FMT[k]
+                            if not args:
+                                okp = False
+                                break
+                            a = args.pop(0)
+                            if cnt and cnt.startswith("{") and isinstance(a, ast.Starred):
+                                seq = a.value
+                                if cnt[1:-1].replace(" ", "") != f"len({ast.unparse(seq)})".replace(" ", ""):
+                                    okp = False
+                                    break
+                                if isinstance(seq, (ast.ListComp, ast.GeneratorExp)) and len(seq.generators) == 1 and not seq.generators[0].ifs:
+                                    elt = _subst_target(seq.elt, seq.generators[0].target, seq.generators[0].iter)
+                                else:
+                                    elt = ast.Call(func=ast.Name(id="ELEM", ctx=ast.Load()), args=[seq], keywords=[])
+                                if elt is None:
+                                    okp = False
+                                    break
+                                out.append(f"repeat(u{bits}{'' if bits == 8 else end}({self.intexpr(elt)}))")
+                            elif not cnt and not isinstance(a, ast.Starred):
+                                out.append(f"u{bits}{'' if bits == 8 else end}({self.intexpr(a)})")
+                            else:
+                                okp = False
+                                break
+                        if okp and not args:
+                            return out
             if isinstance(f, ast.Attribute) and f.attr == "join" and isinstance(f.value, ast.Constant) \
                     and f.value.value == b"" and len(e.args) == 1:
                 lp = self.list_parts(e.args[0])
